@@ -1,6 +1,7 @@
 /- Line-protocol handlers for C05 (Bravyi-Kitaev family). -/
 import OFV.Core.Json
 import OFV.Model.C05
+import OFV.Model.C05Bksf
 import OFV.Spec.C04
 import OFV.Spec.C05
 import OFV.Handlers.Common
@@ -84,6 +85,14 @@ def handle (op : String) (j : Json) : Option (Except String Json) :=
   | "c05.iop_ok" => some do
       .ok (Json.bool (C05.bkInteractionOpOk tol (← nat j "N") (← nat j "n") (← J.gq (← J.field j "constant"))
         (← gqList (← J.field j "one")) (← gqList (← J.field j "two"))))
+  | "c05.bksf_b" => some do
+      let E ← J.listOf (fun e => do let l ← J.natList e; .ok (l.getD 0 0, l.getD 1 0)) (← J.field j "edges")
+      .ok (J.ofOp (Bksf.edgeB tol E (← nat j "i")))
+  | "c05.bksf_a" => some do
+      let E ← J.listOf (fun e => do let l ← J.natList e; .ok (l.getD 0 0, l.getD 1 0)) (← J.field j "edges")
+      match Bksf.edgeA tol E (← nat j "i") (← nat j "j") with
+      | none => .ok Json.null
+      | some a => .ok (J.ofOp a)
   | "c05.enc" => some do
       .ok (J.ofNat (Spec.C05.enc (← parseVariant (← J.field j "variant")) (← nat j "n") (← nat j "s")))
   | "c05.sets_check" => some do
